@@ -284,6 +284,28 @@ def run(pid):
     rep.cov["continuation_failures_attributed_to_known_findings"] = known
     rep.cov["samples"] = [scens[0]["ops"][:12] or scens[0].get("legacy")]
     if pid == "C03":
+        # collector-focused batch: histories that leave unreferenced index files and dead primary records behind, then one
+        # index GC cycle with the free-file scan, one primary GC cycle and one index GC cycle without the scan - with EVERY
+        # call boundary of those three calls as a crash point (they make few calls, and every one of them matters: header
+        # before unlink, mark before truncate, hand-over before marking)
+        w = ["put"] * 6 + ["rem"] + ["flush"] * 4
+        consts = seqeng.kv_consts(6, w, 18)
+        hs, r = seqeng.gen_histories(consts, "sim", num=40 if thorough else 10, seed=vlib.seed() + 31)
+        cfgs = seqeng.sweep(rng, 10, primaries=("mh", "mh", "cid"), bits=(8, 9), limits=(30, 30, 70), imm=(False,))
+        gsc = []
+        for i, h in enumerate(hs):
+            ops = h + [{"op": "flush"}, {"op": "idxgc", "scanFree": True, "deadline": 0}, {"op": "prigc", "lowUse": 0, "deadline": 0}, {"op": "flush"},
+                       {"op": "idxgc", "scanFree": False, "deadline": 0}]
+            n = len(ops)
+            gsc.append({"cfg": cfgs[i % len(cfgs)], "ops": ops, "maxImgs": 0, "cont": CONT, "mode": "", "seed": vlib.seed() * 1000 + 500 + i,
+                        "onlyOps": [n - 4, n - 3, n - 1], "allTorn": False})
+        v3, k3, _ = run_crash(rep, gsc, "gcfocus")
+        for what, obj in v3:
+            rep.violation(what, obj)
+        for k, v in k3.items():
+            known[k] = known.get(k, 0) + v
+        rep.cov["continuation_failures_attributed_to_known_findings"] = known
+        rep.cov["collector_focused_crash_histories"] = len(gsc)
         model_crash_part(rep, rng, thorough)
     # pinned witnesses
     for w, sc in witnesses(pid, "findings"):
